@@ -1,11 +1,228 @@
 (* Property C09 — turmoil::net UDP delivers datagrams whole, to the right
-   sockets, at most once.  Statements only; proofs in C09_proofs.v. *)
+   sockets, at most once.  This file only states the theorems and closes them
+   with the lemmas of Routes / Recv / Groups / Inv / C09_proofs; see DESIGN.md
+   section 5 (C09).  `Targets` and `Admits` (Spec.v) are the declarative side,
+   written from the property text; `send_routes`, `receive`, ... (Model.v) are
+   transcribed from the code. *)
 From TV.Lib Require Import Base.
-From TV.Udp Require Import Model C09_proofs.
+From TV.Udp Require Import Gen Model Spec C09_proofs.
 Open Scope N_scope.
 
-Theorem c09_clip_partial : forall buflen payload,
-  clip buflen payload = firstn (Nat.min (N.to_nat buflen) (length payload)) payload.
-Proof. exact clip_firstn. Qed.
+Definition reach (n : nat) (c : N) (es : list ev) : world := fst (run (init n c) es).
 
-Print Assumptions c09_clip_partial.
+(* Every reachable world is well-formed: host addresses are keys, sockets are
+   bound to the wildcard or a loopback address, the group table has one entry
+   per (group, port) whose members form a non-empty duplicate-free set, every
+   member joined with its own port and is a currently bound socket (so a dropped
+   socket is a member of nothing). *)
+Theorem c09_reachable_wf : forall n c es, wf (reach n c es).
+Proof. intros. apply run_wf, wf_init. Qed.
+
+(* ---- a send: routes vs Targets (any well-formed world, hence any history) -- *)
+
+(* Everything a send puts on the network or on the loopback path is aimed at an
+   address the property allows (Targets, evaluated in the world of the send:
+   broadcast needs the sender's option and a host with the port bound;
+   multicast goes to the members of that moment only), carries the sender's
+   true source address and the destination address of the receiving host. *)
+Theorem c09_routes_sound : forall w hs b dst res rs,
+  wf w -> is_unspec (b_ip b) || is_loop (b_ip b) = true ->
+  send_routes w hs b dst = (res, rs) ->
+  forall r, In r rs ->
+    Targets w hs b dst (r_host r) (snd (r_dst r)) /\
+    r_src r = true_src (h_id hs) b dst /\ route_dst_ok dst r.
+Proof. exact send_routes_sound. Qed.
+
+(* Each send produces at most one route per destination (host, port). *)
+Theorem c09_at_most_once : forall w hs b dst res rs,
+  wf w -> send_routes w hs b dst = (res, rs) -> NoDup (map rkey rs).
+Proof. exact send_routes_nodup. Qed.
+
+(* A send that returns Ok reaches every target. *)
+Theorem c09_routes_complete : forall w hs b dst rs,
+  wf w -> is_unspec (b_ip b) || is_loop (b_ip b) = true ->
+  send_routes w hs b dst = (SOk, rs) ->
+  forall th tp, Targets w hs b dst th tp -> exists r, In r rs /\ r_host r = th /\ snd (r_dst r) = tp.
+Proof. exact send_routes_complete. Qed.
+
+(* ---- delivery of one in-flight datagram ----------------------------------- *)
+
+(* Exactly one: if the addressed socket exists and admits the datagram (bind
+   address, connected peer, queue not full) it is appended once, unaltered,
+   with the source address it was sent with. *)
+Theorem c09_exact : forall w p b,
+  get_bind w (p_host p) (snd (p_dst p)) = Some b ->
+  Admits (cap w) b (p_src p) (p_dst p) ->
+  get_bind (deliver_pkt w p) (p_host p) (snd (p_dst p)) =
+    Some (enqueue b {| d_payload := p_payload p; d_origin := p_src p; d_sid := fst (p_gid p) |}) /\
+  held (enqueue b (mk_dgram p)) = held b ++ [mk_dgram p].
+Proof.
+  intros w p b G A. split; [|apply held_enqueue].
+  rewrite deliver_get_bind, G, !N.eqb_refl. apply accepts_Admits in A. now rewrite A.
+Qed.
+
+(* A datagram changes no socket but the one it is addressed to; and if that
+   socket does not exist (unbound port), or does not admit it (bound to
+   another address, connected to another peer, queue full), nothing changes at
+   all: the drop is silent. *)
+Theorem c09_drop_isolated : forall w p,
+  (forall h port, (h, port) <> (p_host p, snd (p_dst p)) ->
+                  get_bind (deliver_pkt w p) h port = get_bind w h port) /\
+  ((get_bind w (p_host p) (snd (p_dst p)) = None \/
+    exists b, get_bind w (p_host p) (snd (p_dst p)) = Some b /\ ~ Admits (cap w) b (p_src p) (p_dst p)) ->
+   forall h port, get_bind (deliver_pkt w p) h port = get_bind w h port) /\
+  groups (deliver_pkt w p) = groups w /\ inflight (deliver_pkt w p) = inflight w /\
+  received (deliver_pkt w p) = received w.
+Proof.
+  intros w p. split; [|split].
+  - intros h port Ne. rewrite deliver_get_bind. destruct (get_bind w h port) as [b|]; [|reflexivity].
+    destruct (N.eqb_spec h (p_host p)) as [->|]; cbn [andb]; [|reflexivity].
+    destruct (N.eqb_spec port (snd (p_dst p))) as [->|]; cbn [andb]; [now destruct Ne|reflexivity].
+  - intros H h port. rewrite deliver_get_bind. destruct (get_bind w h port) as [b|] eqn:G; [|reflexivity].
+    destruct (N.eqb_spec h (p_host p)) as [->|]; cbn [andb]; [|reflexivity].
+    destruct (N.eqb_spec port (snd (p_dst p))) as [->|]; cbn [andb]; [|reflexivity].
+    destruct H as [H|(b' & H & NA)]; [congruence|]. rewrite G in H. injection H as <-.
+    destruct (accepts (cap w) b (p_src p) (p_dst p)) eqn:Acc; [|reflexivity].
+    apply accepts_Admits in Acc. contradiction.
+  - destruct (deliver_fields w p) as (A & _ & B & _ & _ & C & _). auto.
+Qed.
+
+(* Multicast membership is evaluated when the datagram is sent: delivery does
+   not look at the group table, so a socket that joins later does not get it
+   and a member that leaves while it is in flight still does. *)
+Theorem c09_membership_at_send_time : forall w g p h port,
+  get_bind (deliver_pkt (set_groups w g) p) h port = get_bind (deliver_pkt w p) h port.
+Proof. exact deliver_ignores_groups. Qed.
+
+(* ---- the receive paths ---------------------------------------------------- *)
+
+(* try_recv_from (and recv_from, which is readable + try_recv_from) returns the
+   oldest datagram the socket holds, cut to the buffer: length min(buflen, len),
+   data = the first min(buflen, len) bytes, origin as stored; it is removed and
+   nothing else changes.  readable() only moves a datagram into the stash. *)
+Theorem c09_clip : forall w h port buflen w' o,
+  step w (TryRecv h port buflen) = (w', o) ->
+  match get_bind w h port with
+  | None => w' = w /\ o = OErr 6
+  | Some b =>
+      match held b with
+      | [] => w' = w /\ o = OErr 5
+      | d :: rest =>
+          o = ORecv (N.min buflen (N.of_nat (length (d_payload d)))) (d_origin d)
+                    (firstn (Nat.min (N.to_nat buflen) (length (d_payload d))) (d_payload d)) /\
+          (forall h' port', get_bind w' h' port' =
+             if (h' =? h) && (port' =? port) then Some (set_queue b rest None) else get_bind w h' port') /\
+          received w' = received w ++ [(d_sid d, h, port)] /\
+          inflight w' = inflight w /\ groups w' = groups w /\ sent w' = sent w
+      end
+  end.
+Proof. exact try_recv_spec. Qed.
+
+Theorem c09_readable_keeps_order : forall w h port w' o,
+  step w (Readable h port) = (w', o) ->
+  match get_bind w h port with
+  | None => w' = w /\ o = OErr 6
+  | Some b =>
+      o = OReady (match held b with [] => false | _ => true end) /\
+      (forall h' port', option_map held (get_bind w' h' port') = option_map held (get_bind w h' port')) /\
+      received w' = received w /\ inflight w' = inflight w /\ groups w' = groups w
+  end.
+Proof. exact readable_spec. Qed.
+
+(* ---- every history --------------------------------------------------------- *)
+
+(* For every event sequence (any interleaving of binds, connects, option
+   changes, joins, leaves, sends, deliveries in any order, losses, receives and
+   socket drops): every datagram in flight, held by a socket, or already handed
+   to the application stems from a logged send whose destinations include that
+   very socket address, and carries that send's payload and source address. *)
+Theorem c09_sound : forall n c es,
+  let w := reach n c es in
+  (forall p, In p (inflight w) -> pkt_ok (sent w) p) /\
+  (forall h port b d, get_bind w h port = Some b -> In d (held b) ->
+     exists sr, In sr (sent w) /\ sr_sid sr = d_sid d /\ sr_payload sr = d_payload d /\
+                sr_src sr = d_origin d /\ In (h, port) (sr_targets sr)) /\
+  (forall sid h port, In (sid, h, port) (received w) ->
+     exists sr, In sr (sent w) /\ sr_sid sr = sid /\ In (h, port) (sr_targets sr)).
+Proof.
+  intros n c es w. destruct (run_inv es (init n c) (wf_init n c) (sound_init n c)) as [_ [S1 S2 S3 _]].
+  split; [exact S1|split; [|exact S3]].
+  intros h port b d G Hd. destruct (S2 h port b d G Hd) as (sr & A & B). exists sr. split; [exact A|exact B].
+Qed.
+
+(* ... and the log is faithful: only an accepted send extends it, with the
+   sender's payload, its true source address and exactly the destinations of
+   the routes computed in that world (which c09_routes_sound ties to Targets). *)
+Theorem c09_sent_log : forall w e,
+  sent (fst (step w e)) = sent w \/
+  exists h port dst payload hs b,
+    e = Send h port dst payload /\ find_host w h = Some hs /\ find_bind hs port = Some b /\
+    sent (fst (step w e)) = sent w ++
+      [{| sr_sid := next_sid w; sr_host := h; sr_port := port; sr_src := true_src h b dst; sr_dst := dst;
+          sr_payload := payload; sr_targets := map rkey (snd (send_routes w hs b dst)) |}].
+Proof. exact sent_log. Qed.
+
+(* ---- membership ------------------------------------------------------------ *)
+
+(* join adds exactly (host, port) to (group, port); leave removes exactly it;
+   dropping the socket unbinds it and removes it from every group. *)
+Theorem c09_membership : forall w h port b, wf w -> get_bind w h port = Some b ->
+  (forall g key m, In m (grp_members (groups (fst (step w (Join h port g)))) key) <->
+                   In m (grp_members (groups w) key) \/ (key = (Mcast g, port) /\ m = (h, port))) /\
+  (forall g, In (h, port) (grp_members (groups w) (Mcast g, port)) ->
+     forall key m, In m (grp_members (groups (fst (step w (Leave h port g)))) key) <->
+                   In m (grp_members (groups w) key) /\ ~ (key = (Mcast g, port) /\ m = (h, port))) /\
+  (get_bind (fst (step w (DropSock h port))) h port = None /\
+   forall key m, In m (grp_members (groups (fst (step w (DropSock h port)))) key) <->
+                 In m (grp_members (groups w) key) /\ m <> (h, port)).
+Proof.
+  intros w h port b W G. split; [|split].
+  - intros g. apply (join_member w h port g b W G).
+  - intros g Hm. apply (leave_member w h port g b W G Hm).
+  - apply (drop_member w h port b W G).
+Qed.
+
+(* ---- constants and non-vacuity --------------------------------------------- *)
+
+Example c09_consts : default_udp_capacity = 64.
+Proof. reflexivity. Qed.
+
+(* Three hosts, capacity 1.  Host 0 binds 9000, enables broadcast, joins group 1;
+   host 1 binds 9000 and joins; host 2 binds 9000 to localhost.  A broadcast from
+   host 0 yields one loopback route and two network routes (NoDup); delivered:
+   host 1 gets it, host 2's localhost socket silently drops it; a second
+   datagram to host 1 overflows the queue of capacity 1; host 1 reads 3 of 5
+   bytes with the true origin. *)
+Definition h_script :=
+  [Bind 0 9000 Unspec; SetBroadcast 0 9000 true; Join 0 9000 1;
+   Bind 1 9000 Unspec; Join 1 9000 1; Bind 2 9000 (Loop 1);
+   Send 0 9000 (Bcast, 9000) [1; 2; 3; 4; 5];
+   Deliver (0, 0); Deliver (0, 1); LoopFlush 0 1;
+   Send 0 9000 (Mcast 1, 9000) [7; 7];
+   Deliver (1, 0);
+   TryRecv 1 9000 3; TryRecv 1 9000 3; TryRecv 2 9000 8; TryRecv 0 9000 8].
+Example c09_nonvacuous :
+  let '(w, os) := run (init 3 1) h_script in
+  nth 6 os OUnit = ORoutes SOk [ {| r_via := Lo; r_host := 0; r_src := (HostIp 0, 9000); r_dst := (HostIp 0, 9000) |};
+                                 {| r_via := Net; r_host := 1; r_src := (HostIp 0, 9000); r_dst := (HostIp 1, 9000) |};
+                                 {| r_via := Net; r_host := 2; r_src := (HostIp 0, 9000); r_dst := (HostIp 2, 9000) |} ] /\
+  nth 12 os OUnit = ORecv 3 (HostIp 0, 9000) [1; 2; 3] /\
+  nth 13 os OUnit = OErr 5 /\ nth 14 os OUnit = OErr 5 /\
+  nth 15 os OUnit = ORecv 5 (HostIp 0, 9000) [1; 2; 3; 4; 5] /\
+  received w = [(0, 1, 9000); (0, 0, 9000)] /\ length (sent w) = 2%nat.
+Proof. vm_compute. repeat split. Qed.
+
+Print Assumptions c09_reachable_wf.
+Print Assumptions c09_routes_sound.
+Print Assumptions c09_at_most_once.
+Print Assumptions c09_routes_complete.
+Print Assumptions c09_exact.
+Print Assumptions c09_drop_isolated.
+Print Assumptions c09_membership_at_send_time.
+Print Assumptions c09_clip.
+Print Assumptions c09_readable_keeps_order.
+Print Assumptions c09_sound.
+Print Assumptions c09_sent_log.
+Print Assumptions c09_membership.
+Print Assumptions c09_consts.
+Print Assumptions c09_nonvacuous.
